@@ -212,6 +212,8 @@ Not decided: collisions between distinct ASN.1 names after mangling; exact case-
 
     // ---------------- no identifier is built from a raw ASN.1 name outside the manglers ----------------
     bypass(m, ctx, &manglers);
+    // the internal name of a nested CHOICE value split into its ASN.1 parts: both pass through the manglers (= C07.nest)
+    crate::rules::c07::nested_choice_ident(m, ctx, "C16.bypass");
 
     // ---------------- typescript ----------------
     if let Some(f) = anchor_fn(m, ctx, "C16.ts", None, "to_jer_identifier", Some("typescript")) {
